@@ -104,6 +104,9 @@ func (w *World) reference(l *Ledger, now time.Time, count bool) *epochRef {
 			if g.Fut {
 				vac("upcoming_gauge_with_future_start_activated")
 			}
+			if now.Equal(g.Start) {
+				vac("gauge_activated_by_an_epoch_end_block_at_exactly_its_start_time")
+			}
 		}
 		if g.Kind == KGroup {
 			continue // handled by referenceGroups
